@@ -94,7 +94,20 @@ fn pick_family0<'a>(rng: &mut Rng, blocky: bool) -> &'a Family {
 /// Derive another input from corpus inputs (histories need *different* inputs on one object).
 fn mutate(rng: &mut Rng, s: &str, other: &str) -> String {
     let cs: Vec<char> = s.chars().collect();
-    let out: String = match rng.below(7) {
+    let out: String = match rng.below(10) {
+        // similar haystacks of the same length (what a weakly keyed cache would confuse)
+        7 | 8 if !cs.is_empty() => {
+            let mut c2 = cs.clone();
+            let i = rng.below(c2.len());
+            c2[i] = *rng.pick(&['a', 'b', 'x', 'z', 'A', '-', '0']);
+            c2.into_iter().collect()
+        }
+        9 if cs.len() >= 2 => {
+            let mut c2 = cs.clone();
+            let i = rng.below(c2.len() - 1);
+            c2.swap(i, i + 1);
+            c2.into_iter().collect()
+        }
         0 => format!("{}{}", s, s),
         1 => cs.iter().skip(1).collect(),
         2 => cs.iter().take(cs.len().saturating_sub(1)).collect(),
@@ -108,7 +121,7 @@ fn mutate(rng: &mut Rng, s: &str, other: &str) -> String {
 
 fn pick_input(rng: &mut Rng, fam: &Family, others: &[&Family]) -> String {
     let base = pick_input0(rng, fam, others);
-    if rng.chance(10, 100) {
+    if rng.chance(14, 100) {
         let other = pick_input0(rng, fam, others);
         mutate(rng, &base, &other)
     } else {
